@@ -1,6 +1,7 @@
 import ZvbiModel.Hamm.Model
 import ZvbiModel.Codec.Model
 import ZvbiModel.Generated.CniTable
+import ZvbiModel.Generated.NetFlags
 /-!
 # Model of the network / programme / time / aspect announcement paths (C13)
 
@@ -25,6 +26,17 @@ Times are integer microseconds.  The C code compares doubles; the two boundary d
 
 The station table is a parameter `lk` of every function (`stationLookup` built from the
 generated table is what `step` uses), so the theorems hold for every table.
+
+Three code-shape facts are parameters as well (`Cfg`), read from the current source on every run
+(translate/gen_net.py, translate/gen_netflags.py), so the model follows the tree with or without
+the corresponding repair:
+* `xdsGuard`   - caption.c compares the new XDS id with `n->nuid` before it resets (F36, repaired);
+* `perCarrier` - F11: `false` = ONE `n->cycle` debounces VPS, 8/30 format 1, 8/30 format 2 (and XDS)
+  together; `true` (fixes/C13-cni-cycle-per-carrier.diff) = `vbi->cni_cycle[]` / `vbi->cni_announced[]`,
+  one repeat cycle and one "CNI announced last" per carrier, `n->cycle` left to XDS;
+* `chswIdent`  - F35: `false` = the three CNI paths call `vbi_chsw_reset (vbi, id)` where `id` may be 0
+  (CNI missing from the table), which wipes `vbi->network` and raises a NETWORK event of its own;
+  `true` (fixes/C13-unknown-cni-identified.diff) = they pass "identified".
 -/
 namespace Zvbi.Net
 open Zvbi.Hamm Zvbi.Codec Zvbi.Gen
@@ -73,6 +85,17 @@ def Ev.type : Ev → Nat
   | .aspect _ => VBI_EVENT_ASPECT
   | .progInfo _ => VBI_EVENT_PROG_INFO
 
+/-- `vbi->cni_cycle[]`, `vbi->cni_announced[]` (vbi.h, private; indexed by `vbi_cni_type`): exist in
+    the source only in the per-carrier shape; the shared-cycle shape never reads them -/
+structure Deb where
+  cycVps : Nat := 0
+  cyc8301 : Nat := 0
+  cyc8302 : Nat := 0
+  annVps : Nat := 0
+  ann8301 : Nat := 0
+  ann8302 : Nat := 0
+deriving DecidableEq, Repr
+
 structure State where
   mask : Nat := 0            -- vbi->event_mask (= mask of the single handler)
   time : Nat := 0            -- vbi->time, microseconds
@@ -85,6 +108,7 @@ structure State where
   aspect : Aspect := {}      -- vbi->prog_info[0].aspect (calloc: zero)
   aspectSource : Nat := 0
   cached : List Nat := []    -- page numbers cached in vbi->cn
+  deb : Deb := {}            -- vbi->cni_cycle[], vbi->cni_announced[]
 deriving DecidableEq, Repr
 
 def init : State := {}
@@ -99,6 +123,13 @@ abbrev Lookup := Carrier → Nat → Nat × List Nat
 structure Cfg where
   lk : Lookup
   xdsGuard : Bool
+  /-- F11 repaired: one repeat cycle and one announced CNI per carrier (packet.c uses `vbi->cni_cycle[]`) -/
+  perCarrier : Bool := false
+  /-- F35 repaired: the CNI paths call `vbi_chsw_reset (vbi, TRUE)` -/
+  chswIdent : Bool := false
+  /-- vbi_event_enable resets `prog_info[]` / `aspect_source` only when NEITHER of ASPECT / PROG_INFO was enabled
+      before (the inner test `!(vbi->event_mask & (VBI_EVENT_ASPECT | VBI_EVENT_PROG_INFO))`, vbi.c:159) -/
+  enableKeepsInfo : Bool := true
 
 def findBy (f : CniEntry → Nat) (cni : Nat) : List CniEntry → Option CniEntry
   | [] => none
@@ -119,7 +150,9 @@ def stationLookupIn (tbl : List CniEntry) (c : Carrier) (cni : Nat) : Nat × Lis
 
 def stationLookup : Lookup := stationLookupIn cniTable
 
-def cfg0 : Cfg := { lk := stationLookup, xdsGuard := Zvbi.Gen.xdsNuidGuard }
+def cfg0 : Cfg := { lk := stationLookup, xdsGuard := Zvbi.Gen.xdsNuidGuard,
+                    perCarrier := Zvbi.Gen.Net.cniCyclePerCarrier, chswIdent := Zvbi.Gen.Net.chswCallersIdentified,
+                    enableKeepsInfo := Zvbi.Gen.Net.enableKeepsProgInfo }
 
 /-! ## vbi_send_event with a single handler -/
 
@@ -137,7 +170,7 @@ def chswReset (s : State) (identified : Nat) : State × List Ev :=
   let s := { s with cached := [] }                       -- vbi->cn replaced by a fresh network
   let (s, e1) : State × List Ev :=
     if identified = 0 then
-      let s := { s with net := {} }
+      let s := { s with net := {}, deb := {} }          -- memset (&vbi->network), CLEAR (cni_cycle / cni_announced)
       (s, if old ≠ 0 then [Ev.network s.net] else [])
     else (s, [])
   let e2 : List Ev := if s.aspectSource > 0 then [Ev.aspect (chswAspect s.aspectSource)] else []
@@ -158,33 +191,75 @@ def setCni (c : Carrier) (n : Network) (v : Nat) : Network :=
   | .p8301 => { n with cni8301 := v }
   | .p8302 => { n with cni8302 := v }
 
-/-- the `else if (n->cycle == 1)` branch: lookup, name, NETWORK (+ reset) if the id changed,
+def cycOf (c : Carrier) (d : Deb) : Nat :=
+  match c with
+  | .vps => d.cycVps
+  | .p8301 => d.cyc8301
+  | .p8302 => d.cyc8302
+
+def annOf (c : Carrier) (d : Deb) : Nat :=
+  match c with
+  | .vps => d.annVps
+  | .p8301 => d.ann8301
+  | .p8302 => d.ann8302
+
+def setCyc (c : Carrier) (d : Deb) (k : Nat) : Deb :=
+  match c with
+  | .vps => { d with cycVps := k }
+  | .p8301 => { d with cyc8301 := k }
+  | .p8302 => { d with cyc8302 := k }
+
+def setAnn (c : Carrier) (d : Deb) (v : Nat) : Deb :=
+  match c with
+  | .vps => { d with annVps := v }
+  | .p8301 => { d with ann8301 := v }
+  | .p8302 => { d with ann8302 := v }
+
+/-- `n->cycle == 1` resp. `vbi->cni_cycle[c] == 1`: a changed CNI waits for its repeat -/
+def pending (cfg : Cfg) (c : Carrier) (s : State) : Prop :=
+  if cfg.perCarrier then cycOf c s.deb = 1 else s.net.cycle = 1
+instance (cfg : Cfg) (c : Carrier) (s : State) : Decidable (pending cfg c s) := by unfold pending; infer_instance
+
+/-- the `if (cni != n->cni_x)` branch: `n->cni_x = cni; n->cycle = 1;` resp.
+    `n->cni_x = cni; vbi->cni_cycle[c] = (cni != vbi->cni_announced[c]);` -/
+def markChange (cfg : Cfg) (c : Carrier) (v : Nat) (s : State) : State :=
+  if cfg.perCarrier then
+    { s with net := setCni c s.net v, deb := setCyc c s.deb (if v ≠ annOf c s.deb then 1 else 0) }
+  else { s with net := { setCni c s.net v with cycle := 1 } }
+
+/-- `n->cycle = 2;` resp. `vbi->cni_cycle[c] = 2; vbi->cni_announced[c] = cni;` -/
+def markDone (cfg : Cfg) (c : Carrier) (v : Nat) (s : State) : State :=
+  if cfg.perCarrier then { s with deb := setAnn c (setCyc c s.deb 2) v }
+  else { s with net := { s.net with cycle := 2 } }
+
+/-- the `else if (cycle == 1)` branch: lookup, name, NETWORK (+ reset) if the id changed,
     NETWORK_ID, cycle = 2 -/
-def announce (lk : Lookup) (c : Carrier) (v : Nat) (s : State) : State × List Ev :=
-  let id := (lk c v).1
-  let s := { s with net := { s.net with name := if id = 0 then [] else (lk c v).2.take 62 } }
+def announce (cfg : Cfg) (c : Carrier) (v : Nat) (s : State) : State × List Ev :=
+  let id := (cfg.lk c v).1
+  let s := { s with net := { s.net with name := if id = 0 then [] else (cfg.lk c v).2.take 62 } }
   let (s, e1) : State × List Ev :=
     if id ≠ s.net.nuid then
-      let (s, e0) : State × List Ev := if s.net.nuid ≠ 0 then chswReset s id else (s, [])
+      let (s, e0) : State × List Ev :=
+        if s.net.nuid ≠ 0 then chswReset s (if cfg.chswIdent then 1 else id) else (s, [])
       let s := { s with net := { s.net with nuid := id } }
       (s, e0 ++ [Ev.network s.net])
     else (s, [])
-  ({ s with net := { s.net with cycle := 2 } }, e1 ++ [Ev.networkId s.net])
+  (markDone cfg c v s, e1 ++ [Ev.networkId s.net])
 
-/-- the `if (cni != n->cni_x) ... else if (n->cycle == 1) ...` skeleton -/
-def cniRx (lk : Lookup) (c : Carrier) (v : Nat) (s : State) : State × List Ev :=
-  if v ≠ cniOf c s.net then ({ s with net := { setCni c s.net v with cycle := 1 } }, [])
-  else if s.net.cycle = 1 then announce lk c v s
+/-- the `if (cni != n->cni_x) ... else if (cycle == 1) ...` skeleton -/
+def cniRx (cfg : Cfg) (c : Carrier) (v : Nat) (s : State) : State × List Ev :=
+  if v ≠ cniOf c s.net then (markChange cfg c v s, [])
+  else if pending cfg c s then announce cfg c v s
   else (s, [])
 
 /-! ## vbi_decode_vps (packet.c:1168) -/
 
-def rxVps (lk : Lookup) (s : State) (b : Buf) : State × List Ev :=
+def rxVps (cfg : Cfg) (s : State) (b : Buf) : State × List Ev :=
   let cni := decodeVpsCni b
   if cni ≠ s.net.cniVps then
-    ({ s with net := { s.net with cniVps := cni, cycle := 1 }, vpsPid := decodeVpsPdc b }, [])
-  else if s.net.cycle = 1 then
-    let (s, evs) := announce lk .vps cni s
+    ({ markChange cfg .vps cni s with vpsPid := decodeVpsPdc b }, [])
+  else if pending cfg .vps s then
+    let (s, evs) := announce cfg .vps cni s
     if hasBit s.mask VBI_EVENT_PROG_ID then
       let pid := decodeVpsPdc b
       if pid ≠ s.vpsPid then ({ s with vpsPid := pid }, evs)
@@ -206,25 +281,25 @@ def bsdCni2 (b : Buf) : Option Nat :=
   | _, _, _, _, _, _, _ => none
 
 /-- `parse_bsd` for packet 30; `none` = FALSE -/
-def parseBsd (lk : Lookup) (s : State) (b : Buf) (designation : Nat) : Option (State × List Ev) :=
+def parseBsd (cfg : Cfg) (s : State) (b : Buf) (designation : Nat) : Option (State × List Ev) :=
   if designation ≥ 4 then some (s, [])
-  else if designation ≤ 1 then some (cniRx lk .p8301 (decode8301Cni b) s)
+  else if designation ≤ 1 then some (cniRx cfg .p8301 (decode8301Cni b) s)
   else match bsdCni2 b with
     | none => none
-    | some cni => some (cniRx lk .p8302 cni s)
+    | some cni => some (cniRx cfg .p8302 cni s)
 
 /-- `unham_page_link` succeeds (its result, the initial page, is not part of this model) -/
 def pageLinkOk (b : Buf) : Bool :=
   (unham16p (bt b 3) (bt b 4)).isSome && (unham16p (bt b 5) (bt b 6)).isSome && (unham16p (bt b 7) (bt b 8)).isSome
 
-def parse830 (lk : Lookup) (s : State) (b : Buf) : State × List Ev :=
+def parse830 (cfg : Cfg) (s : State) (b : Buf) : State × List Ev :=
   match unham8 (bt b 2) with
   | none => (s, [])
   | some designation =>
     if designation > 4 then (s, []) else
     if hasBit s.mask VBI_EVENT_TTX_PAGE && !pageLinkOk b then (s, []) else
     let r : Option (State × List Ev) :=
-      if hasBit s.mask (VBI_EVENT_NETWORK ||| VBI_EVENT_NETWORK_ID) then parseBsd lk s b designation else some (s, [])
+      if hasBit s.mask (VBI_EVENT_NETWORK ||| VBI_EVENT_NETWORK_ID) then parseBsd cfg s b designation else some (s, [])
     match r with
     | none => (s, [])
     | some (s, evs) =>
@@ -245,10 +320,10 @@ def parse830 (lk : Lookup) (s : State) (b : Buf) : State × List Ev :=
 def ttxPacket (b : Buf) : Option Nat := (unham16p (bt b 0) (bt b 1)).map (· >>> 3)
 
 /-- `vbi_decode_teletext` restricted to packets 30 and 31 (the frame op is refused otherwise) -/
-def rxTtx (lk : Lookup) (s : State) (b : Buf) : State × List Ev :=
+def rxTtx (cfg : Cfg) (s : State) (b : Buf) : State × List Ev :=
   match unham16p (bt b 0) (bt b 1) with
   | none => (s, [])
-  | some pmag => if pmag &&& 15 = 0 then parse830 lk s b else (s, [])
+  | some pmag => if pmag &&& 15 = 0 then parse830 cfg s b else (s, [])
 
 /-! ## vbi_decode_wss_625 (wss.c:34) -/
 
@@ -342,8 +417,8 @@ def prologue (s : State) (t : Nat) : State × List Ev :=
 
 def rxLine (cfg : Cfg) (t : Nat) (s : State) (l : Line) : State × List Ev :=
   match l with
-  | .vps b => rxVps cfg.lk s b
-  | .ttx b => rxTtx cfg.lk s b
+  | .vps b => rxVps cfg s b
+  | .ttx b => rxTtx cfg s b
   | .wss b0 b1 => rxWss s b0 b1 t
   | .xds ty bytes => rxXds cfg.xdsGuard s ty bytes
   | .page pgno =>
@@ -374,10 +449,11 @@ def frame (cfg : Cfg) (s : State) (t : Nat) (ls : List Line) : State × List Ev 
 
 /-! ## vbi_event_enable (vbi.c:141) through vbi_event_handler_register with one handler -/
 
-def eventEnable (s : State) (m : Nat) : State :=
+def eventEnable (keeps : Bool) (s : State) (m : Nat) : State :=
   let act := m &&& (0xFFFF ^^^ (s.mask &&& 0xFFFF))
-  let s := if hasBit act (VBI_EVENT_NETWORK ||| VBI_EVENT_NETWORK_ID) then { s with net := {} } else s
-  let s := if hasBit act (VBI_EVENT_ASPECT ||| VBI_EVENT_PROG_INFO) && !hasBit s.mask (VBI_EVENT_ASPECT ||| VBI_EVENT_PROG_INFO)
+  let s := if hasBit act (VBI_EVENT_NETWORK ||| VBI_EVENT_NETWORK_ID) then { s with net := {}, deb := {} } else s
+  let s := if hasBit act (VBI_EVENT_ASPECT ||| VBI_EVENT_PROG_INFO) &&
+              (!keeps || !hasBit s.mask (VBI_EVENT_ASPECT ||| VBI_EVENT_PROG_INFO))
            then { s with aspect := aspectReset, aspectSource := 0 } else s
   let s := if hasBit act VBI_EVENT_PROG_ID then { s with vpsPid := {} } else s
   { s with mask := m }
@@ -426,7 +502,7 @@ def lineOk : Line → Bool
 
 def stepWith (cfg : Cfg) (s : State) (op : Op) : State × Out :=
   match op with
-  | .mask m => if m &&& maskAllowed = m then (eventEnable s m, .evs []) else (s, .rej "mask")
+  | .mask m => if m &&& maskAllowed = m then (eventEnable cfg.enableKeepsInfo s m, .evs []) else (s, .rej "mask")
   | .frame t ls =>
     if t ≥ timeLimit || timeAmbiguous s t then (s, .rej "time")
     else if !ls.all lineOk then (s, .rej "kind")
